@@ -1,9 +1,6 @@
 SPECIFICATION Spec
 CONSTANTS
-  Kind = "@@KIND@@"
-  Norm = @@NORM@@
-  Spellings <- MCSpellings
-  Typed <- MCTyped
+  Configs <- MCConfigs
   MaxH = @@MAXH@@
 INVARIANT Inv
 PROPERTY FrameProp
